@@ -77,6 +77,7 @@ class Job:
         self.expect_reach = expect_reach
         self.fallback = fallback
         self.pre_unwind = list(pre_unwind)
+        self.count_funcs = None  # optional: the real functions this entry point reaches
         self.scope = set(scope)  # harness functions (besides entry) whose assertions belong to this job
 
 
@@ -253,6 +254,10 @@ def run_job(job, staged, workdir, log):
         if getattr(job, '_shared_entry', False) and '/harness/' in loc.get('file', '') \
                 and loc.get('function', '') not in job.scope and loc.get('function', '') != job.entry:
             continue  # assertion of another entry point of the shared harness TU: unreachable here
+        if getattr(job, '_shared_entry', False) and job.count_funcs is not None \
+                and loc.get('function', '') not in job.count_funcs and loc.get('function', '') != job.entry \
+                and loc.get('function', '') not in job.scope:
+            continue  # generic obligation in a function of the TU this entry point never calls
         res['obligations'].append({
             'id': prop, 'desc': desc, 'status': r.get('status'),
             'class': classify(prop, desc), 'cat': category(prop, desc),
